@@ -265,3 +265,66 @@ def unit_xb():
 
 
 UNITS += [unit_xb()]
+
+# ------------------------------------------------------------------------------------------------------------------------------------
+# mmap_log_send: `send` / `send_with` of the log (mmap) Multi channel for a SYMBOLIC MAX_STREAMS (C03 C04 C09): one append to the single log
+# (the topic's publish contract: units mmap_meta / mmap_log_a), then EVERY live listener is woken -- each has its own cursor into the log, so
+# each has something new to yield; a rejected send hands the payload / un-invoked setter back and changes nothing.
+# ------------------------------------------------------------------------------------------------------------------------------------
+SPEC_LOG = SPEC_ARC.split("/// `std::thread::sleep(..)`")[0] + r"""
+pub enum RetryResult<I> { Ok { reported_input: (), output: () }, Transient { input: I, error: () }, Fatal { input: I, error: () } }
+pub struct Setter { pub value: Ghost<u64>, pub id: Ghost<int> }
+/// the log topic (MMapMeta): abstractly the published history
+pub struct LogQueue { pub log: Ghost<Seq<u64>> }
+impl LogQueue {
+    /// ASSUMED contract of MMapMeta::publish_movable / publish (decided in units mmap_meta / mmap_log_a, K): accepted => exactly one entry appended
+    #[verifier::external_body]
+    pub fn publish_movable(&mut self, item: u64) -> (r: (Option<NonZeroU32>, Option<u64>))
+        ensures r.0 is Some ==> r.1 is None && final(self).log@ == old(self).log@.push(item),
+                r.0 is None ==> r.1 == Some(item) && final(self).log == old(self).log,
+    { unimplemented!() }
+    #[verifier::external_body]
+    pub fn publish(&mut self, setter: Setter) -> (r: (Option<NonZeroU32>, Option<Setter>))
+        ensures r.0 is Some ==> r.1 is None && final(self).log@ == old(self).log@.push(setter.value@),
+                r.0 is None ==> r.1 == Some(setter) && final(self).log == old(self).log,
+    { unimplemented!() }
+}
+impl<const MAX_STREAMS: usize> StreamsManagerBase<MAX_STREAMS> {
+    pub fn running_streams_count(&self) -> (r: u32) ensures r == self.used_streams_count@ { self.used_streams_count.load(Relaxed) }
+}
+pub struct MmapLog<const MAX_STREAMS: usize> { pub streams_manager: StreamsManagerBase<MAX_STREAMS>, pub log_queue: LogQueue }
+"""
+
+
+def unit_log():
+    impl = r"ChannelProducer\s*<\s*'a\s*,\s*ItemType\s*,\s*&'static\s+ItemType\s*>\s*for\s+MmapLog\s*<[^{]*(?=\{)"
+    US, CNT = "old(self).streams_manager.used_streams", "old(self).streams_manager.used_streams_count@"
+    rules = [Rule("R3-retry-path", r"\bkeen_retry::RetryResult::", "RetryResult::", min=1),
+             Rule("R6-alias", r"let used_streams = self\.streams_manager\.used_streams\(\);", "", count=1, note="&[u32; M] alias of the live list inlined"),
+             Rule("R6-get_unchecked", r"\*unsafe \{ used_streams\.get_unchecked\(([^()]*)\) \}", r"self.streams_manager.used_streams[\1]", count=1, note="unchecked read -> checked index (bound obligation)"),
+             Rule("R12-for-label", r"\bfor\s+(\w+)\s+in\s+(?!it_)", r"for \1 in it_\1: ", count=1),
+             Rule("R9-expect", r"\.expect\(\"[^\"]*\"\)", ".unwrap()", count=1, note="expect -> unwrap: reachability of the BUG! panic becomes an obligation")]
+    inv = ("invariant old(self).streams_manager.inv_sm(), self.streams_manager.inv_sm(), it_i.iter.end == running_streams_count, it_i.iter.start <= running_streams_count, running_streams_count == " + CNT + ","
+           " self.streams_manager.used_streams == " + US + ", self.streams_manager.used_streams_count == old(self).streams_manager.used_streams_count, self.log_queue.log@ == old(self).log_queue.log@.push(PAYLOAD),"
+           " forall|id: int| 0 <= id < MAX_STREAMS ==> self.streams_manager.wakes@[id] >= old(self).streams_manager.wakes@[id],"
+           " forall|k: int| 0 <= k < it_i.iter.start ==> self.streams_manager.wakes@[" + US + "[k] as int] > old(self).streams_manager.wakes@[" + US + "[k] as int],\n"
+           "ensures it_i.iter.start == " + CNT + ",")
+    post = ("r is Ok ==> final(self).log_queue.log@ == old(self).log_queue.log@.push(PAYLOAD) && (forall|k: int| 0 <= k < " + CNT + " ==> final(self).streams_manager.wakes@[" + US + "[k] as int] > old(self).streams_manager.wakes@[" + US + "[k] as int]),"
+            "(r matches RetryResult::Transient { input, .. } ==> input == INPUT && final(self).log_queue.log == old(self).log_queue.log && final(self).streams_manager == old(self).streams_manager),"
+            "!(r is Fatal), final(self).streams_manager.used_streams == " + US)
+    fns = [FnSpec("src/multi/channels/reference/mmap_log.rs", "send", impl=impl, props=["C03", "C04", "C09"],
+                  sig="pub fn send(&mut self, item: u64) -> (r: RetryResult<u64>)", sig_anchor=r"fn send\(&self, item: ItemType\)",
+                  rules=rules, requires="old(self).streams_manager.inv_sm()", ensures=post.replace("PAYLOAD", "item").replace("INPUT", "item"),
+                  loops={0: inv.replace("PAYLOAD", "item")}),
+           FnSpec("src/multi/channels/reference/mmap_log.rs", "send_with", impl=impl, props=["C03", "C04", "C09"],
+                  sig="pub fn send_with(&mut self, setter: Setter) -> (r: RetryResult<Setter>)", sig_anchor=r"fn send_with<F: FnOnce\(&mut ItemType\)>\(&self, setter: F\)",
+                  rules=rules, requires="old(self).streams_manager.inv_sm()", ensures=post.replace("PAYLOAD", "setter.value@").replace("INPUT", "setter"),
+                  loops={0: inv.replace("PAYLOAD", "setter.value@")})]
+    for f in fns:
+        f.container = "impl<const MAX_STREAMS: usize> MmapLog<MAX_STREAMS>"
+    return Unit("mmap_log_send", fns, spec=SPEC_LOG,
+                trusted=["LogQueue::publish_movable / publish (the topic's append: units mmap_meta, mmap_log_a and back end K), wake_stream: shims"],
+                assumptions=["send_with_async / reserve_slot of this channel start with leak_slot(), which is todo!() upstream: excluded"])
+
+
+UNITS += [unit_log()]
